@@ -441,6 +441,13 @@ def check_pack(ctx, ci, bits='derive'):
             ctx.violation(rule, fi, label, 'expected exactly one merge into the shared slot, found %d' % len(merges), fi.node.lineno, clause='d')
             continue
         v = merges[0].value
+        # "value or fallback" is the fallback for the legitimate value 0
+        VAL = canon(ast.parse('getattr(pkt, self.field_name)', mode='eval').body)
+        swapped = [b for b in ast.walk(v) if isinstance(b, ast.BoolOp) and isinstance(b.op, ast.Or) and any(canon(x) == VAL for x in b.values[:-1])
+                   and not (isinstance(b.values[-1], ast.Constant) and b.values[-1].value in (0, False))]
+        if swapped:
+            ctx.violation(rule, fi, '%s: %s' % (label, canon(swapped[0])), 'a member whose value is 0 is written as %s: its slice does not hold the value modulo 2^width' % canon(swapped[0].values[-1]), merges[0].lineno, clause='d', witness=True)
+            continue
         try:
             if bits is None:
                 raise Undecided('the shifts and masks of Bits._compile were not identified')
